@@ -52,7 +52,7 @@ Print Assumptions C12_timer_resolution.
    (C11_idle_drop / C11_mismatch state this for the tail) *)
 Theorem C12_partial : forall cfg s r tx d k, ph s = PInFlight r tx d -> partial s = None ->
   step cfg s (EvHead tx k) = (set_partial s (Some (tx, k)), []).
-Proof. intros cfg s r tx d k H1 H2. cbn [step]. rewrite H1, H2. reflexivity. Qed.
+Proof. exact head_is_silent. Qed.
 Print Assumptions C12_partial.
 
 (* --- usable after a timeout --- *)
